@@ -123,13 +123,16 @@ func Intersect(ctx *expr.Context, input system.Collection, args ...expr.Expressi
 	for _, i := range input {
 		for _, c := range argValues {
 			if checkEquality(i, c) {
-				v, err := system.From(c)
+				// the intersection consists of items of the input, not of the equal
+				// items of the argument (5 = 5 'mg' holds, but 5.intersect(5 'mg') is 5)
+				v, err := system.From(i)
 				if err != nil {
 					// complex elements have no System representation: keep the element itself
-					result = append(result, c)
-					continue
+					result = append(result, i)
+					break
 				}
 				result = append(result, v)
+				break
 			}
 		}
 	}
